@@ -14,6 +14,12 @@ Per case:  sanity pass (field-classification guard, JSON model == real json on c
               with a structural signature; that signature is then excluded (C17_SKIP) and the condition is
               checked again until CrossHair answers "Confirmed over all paths" for everything that is left.
 Anything other than "Confirmed over all paths" / a reproduced counterexample is inconclusive.
+
+Second engine (chk/c17_resume.py, symtorch + SMT portfolio): "resuming continues the same run" for the Optimizer.
+The real Optimizer.from_json / run / save_full_state / restart-as-torchtree.main / run are executed on symbolic
+parameter values, learning rates and scheduler decay with an uninterpreted loss; the state of the restarted
+optimiser and the states visited by the resumed run are proved equal to those of the uninterrupted run for every
+interruption point within the bounds; counterexamples are replayed with real checkpoint files.
 """
 from __future__ import annotations
 
@@ -67,6 +73,10 @@ for _n in ('SGD', 'Adam', 'Adagrad', 'RMSprop', 'AdamW'):
                                  [(17, s, w, False, 0.05, 3, 4) for s in range(6) for w in (0, 1, 2)] +
                                  [(BIG, 0, 2, True, NAN, 0, 0), (-1, 0, 2, True, -INF, 1, 1)])
 
+CASES['Optimizer[Adam,quick]'] = ('c17_harness_optim', 'OptimizerQ', 'quick-only',
+                                  [(17, s, 2, False, 0.05, 3, 4) for s in (0, 1, 4)] + [(BIG, 1, 2, False, NAN, 0, 0),
+                                                                                        (-1, 4, 2, False, -INF, 1, 1)])
+
 BOUNDS = {
     'MCMC operators': 'ScalerOperator, SlidingWindowOperator, DirichletOperator, GMRFPiecewiseCoalescentBlockUpdatingOperator:'
                       ' unbounded symbolic int counters, symbolic float tuning value (incl. nan/inf), acceptance window of'
@@ -78,8 +88,10 @@ BOUNDS = {
     'MCMC': '4 simple operators (+ HMC operator with all three adaptors); symbolic iteration counter; window 0..3',
     'Optimizer': 'thorough tier: SGD+momentum, Adam, Adagrad, RMSprop+momentum, AdamW+amsgrad x {no scheduler, StepLR, '
                  'MultiStepLR, ExponentialLR, LambdaLR, CosineAnnealingLR} x {0,1,2} concrete warm-up steps x '
-                 '(StanVariationalConvergence only without scheduler, 2 warm-up steps); two parameters (float64 [2], float32 [1]); symbolic '
-                 'iteration counter, scheduler last_epoch/_step_count/_last_lr, ELBO; concrete non-default lr',
+                 '(StanVariationalConvergence only without scheduler, 2 warm-up steps); two parameters (float64 [2], float32 [1]) '
+                 'in two param groups; symbolic iteration counter, scheduler last_epoch/_step_count/_last_lr, ELBO; every '
+                 'numeric hyper-parameter of both param groups (lr, momentum, betas, eps, weight_decay, ...) concrete and '
+                 'different from the specification',
     'codec': 'thorough tier: tensors float64/float32/int64/bool, 0-2 dims, 0..3 columns, nn flag; Parameter specifications '
              'tensor/full/zeros/ones/zeros_like/ones_like/full_like/eye/tensor+dimension/scalar/integer x dtype key '
              '{absent,float32,float64} x nn flag x float32/float64 *_like source x float32/float64 default dtype',
@@ -192,6 +204,25 @@ def describe(sig):
                 f"and restarting from it (the restarted object keeps the value its constructor gave it / a different "
                 f"dtype)")
     return sig
+
+
+def resume_tasks(thorough):
+    """symtorch tasks: ('resume', algo, sched, groups, interruption points, further updates K, solver timeout)"""
+    from chk import c17_resume as R
+
+    if not thorough:
+        scheds = ('StepLR', 'ExponentialLR', 'LambdaLR', 'OneCycleLR', 'none')
+        return [('resume', a, s, 2, (1, 2, 3), 1, 30) for s in scheds for a in ('SGD', 'Adam')]
+    return [('resume', a, s, g, (1, 2, 3, 4), 2, 120) for s in R.SCHEDS for a in R.ALGOS for g in (2, 1)
+            if R.compatible(a, s)]
+
+
+def run_any(task, tr):
+    if isinstance(task, tuple) and task[0] == 'resume':
+        from chk import c17_resume as R
+
+        return R.resume_task(task, tr)
+    return run_task(task, tr)
 
 
 def run_task(case, tr):
@@ -426,7 +457,12 @@ def body(chk):
         'pure-Python model of the JSON data model (validated against the real json module); post-condition: load never '
         'raises, never reads a key that was not written, every run-state field of the restarted object equals the '
         'original (values, dtypes, key types) and state_dict() is unchanged.  Each condition has a reachability twin '
-        'that must be refuted.  Counterexamples are replayed through json.dumps/json.loads on the real classes.')
+        'that must be refuted.  Counterexamples are replayed through json.dumps/json.loads on the real classes.  '
+        'Resuming: symtorch executes the real Optimizer.from_json/run/save_full_state, the restart of torchtree.main '
+        '(update_parameters, process_objects, load_state_dict) and the resumed run on symbolic parameter values, '
+        'learning rates and scheduler decay with real torch.optim steps and an uninterpreted loss; z3/cvc5 prove that '
+        'the restarted state equals the written one and that the resumed run visits the states of the uninterrupted '
+        'run; counterexamples are replayed with real checkpoint files.')
     tr.assumptions |= {
         'JSON data model: dict keys int/float/bool/None become strings, tuples become lists, str/int/float/bool/None are '
         'preserved exactly (floats via repr round trip, NaN/Infinity tokens allowed), unknown types go through '
@@ -436,9 +472,10 @@ def body(chk):
         'tuning values, iteration numbers, window contents, flags and configuration selectors are symbolic',
         'tuple vs list is not counted as a difference (JSON data model); int-vs-str dict keys, dtypes, nn flag, '
         'None-vs-value and container lengths are',
-        'OUTSIDE THE CLAIM: "a deterministic run resumed from a checkpoint visits the same sequence of parameter '
-        'states" is a whole-program property and is not decided here (note: MCMC/Optimizer save _epoch before '
-        'incrementing it, so a resumed run re-executes iteration _epoch); RNG state is not part of any checkpoint',
+        '"a deterministic run resumed from a checkpoint visits the same sequence of parameter states" is decided for '
+        'the Optimizer (deterministic; see bounds "Optimizer resume"); OUTSIDE THE CLAIM for MCMC: its proposals are '
+        'random and the RNG state is not part of any checkpoint (note: MCMC/Optimizer save _epoch before incrementing '
+        'it, so a resumed run re-executes iteration _epoch)',
         'OUTSIDE THE CLAIM: LBFGS internals, ReduceLROnPlateau/cyclic schedulers, parameter dimension > 3, devices '
         'other than cpu, file-system behaviour of save_parameters (C18)',
         'composite cases (HMCOperator, MCMC) use finite symbolic floats derived from symbolic ints (n*0.125); the full '
@@ -447,16 +484,36 @@ def body(chk):
     for k, v in BOUNDS.items():
         if thorough or k not in ('Optimizer', 'codec'):
             tr.bounds[k] = v
+    if not thorough:
+        tr.bounds['Optimizer (quick slice)'] = (
+            'CrossHair: Adam x {no scheduler, StepLR, LambdaLR}, 2 concrete warm-up steps, two param groups (float64 [2], '
+            'float32 [1]) whose numeric hyper-parameters all differ from the specification; symbolic iteration counter, '
+            'scheduler last_epoch/_step_count/_last_lr; the other optimisers / schedulers: thorough tier')
     json_model_sanity(tr)
     guard(tr, thorough)
-    cases = [c for c, v in CASES.items() if thorough or v[2] == 'quick']
-    pmap(run_task, cases, tr)
+    cases = [c for c, v in CASES.items() if (v[2] != 'quick-only' if thorough else v[2] in ('quick', 'quick-only'))]
+    from chk import c17_resume as R
+
+    rt = resume_tasks(thorough)
+    tr.bounds['Optimizer resume'] = R.BOUNDS_TEXT.format(
+        algos=sorted({t[1] for t in rt}), scheds=sorted({t[2] for t in rt}), groups=sorted({t[3] for t in rt}),
+        points=list(rt[0][4]), K1=rt[0][5] + 1)
+    # the CrossHair cases are the long ones: they are submitted first
+    pmap(run_any, cases + rt, tr)
 
 
 def replay(path):
     from chk import c17_model as M
 
     r = json.load(open(path))['replay']
+    if r.get('kind') == 'resume':
+        from chk import c17_resume as R
+
+        ok, sig, detail = R.replay(r['algo'], r['sched'], r['groups'], r['N'], r['K'], r['values'])
+        ok = ok and sig == r['signature']
+        print(('REPRODUCED ' if ok else 'NOT REPRODUCED ') + f"{r['signature']} resume[{r['algo']}+{r['sched']}] N={r['N']} "
+              f"values={r['values']}: {detail}")
+        return 1 if ok else 0
     probs = M.concrete_problems(r['case'], tuple(r['args']))
     ok = r['signature'] in probs
     print(('REPRODUCED ' if ok else 'NOT REPRODUCED ') + f"{r['signature']} case={r['case']} args={r['args']} "
